@@ -20,6 +20,8 @@
 #include <type_traits>
 #include <signal.h>
 #include <unistd.h>
+#include <fcntl.h>
+#include "syslog/SysLog.h"
 
 using namespace muscle;
 using namespace vh;
@@ -56,6 +58,10 @@ struct IWorld
    virtual std::string keyTokAt(int t, uint32_t idx) const = 0;
    virtual bool iterLive(int i) const = 0;
    virtual bool iterHasData(int i) const = 0;
+   virtual bool zeroCap(int t) const = 0;          // GetNumAllocatedItemSlots() == 0
+   virtual bool autoSortOn(int t) const = 0;       // ordered kinds: GetAutoSortEnabled()
+   virtual bool hasKeyTok(int t, const std::string & tok) const = 0;
+   virtual int valueOfKeyTok(int t, const std::string & tok) const = 0;   // -1 if absent
 };
 
 template<class TableT, class K, int KIND> struct WorldT : public IWorld
@@ -97,6 +103,10 @@ template<class TableT, class K, int KIND> struct WorldT : public IWorld
    virtual std::string keyTokAt(int t, uint32_t idx) const {const K * k = tab[t]->GetKeyAt(idx); return k ? KT::render(*k) : std::string("0");}
    virtual bool iterLive(int i) const {return it[i] != NULL;}
    virtual bool iterHasData(int i) const {return (it[i] != NULL)&&(it[i]->HasData());}
+   virtual bool zeroCap(int t) const {return tab[t]->GetNumAllocatedItemSlots() == 0;}
+   virtual bool autoSortOn(int t) const {return autoRef[t];}
+   virtual bool hasKeyTok(int t, const std::string & tok) const {K k = K(); return (KT::parse(tok, k))&&(tab[t]->ContainsKey(k));}
+   virtual int valueOfKeyTok(int t, const std::string & tok) const {K k = K(); if (!KT::parse(tok, k)) return -1; const int * v = tab[t]->Get(k); return v ? *v : -1;}
 
    // ------------------------------------------------------------------ reference (ideal ordered map)
    static bool ltEntry(const Pair & a, const Pair & b) {return (KIND == 2) ? (a.second < b.second) : KT::less(a.first, b.first);}
@@ -117,7 +127,7 @@ template<class TableT, class K, int KIND> struct WorldT : public IWorld
    void rput(int t, const K & k, int v)
    {
       typename Ref::iterator i = rfind(t, k);
-      if (i != ref[t].end()) {i->second = v; if (KIND != 0) noteReorder(t);}   // an ordered table may move the entry
+      if (i != ref[t].end()) {i->second = v; if (KIND != 0) noteReorder(t); if ((KIND == 2)&&(!autoRef[t])) sortedExpected[t] = false;}   // an ordered table may move the entry
       else {noteInsert(t, k); rinsert(t, ref[t].end(), Pair(k, v)); if ((KIND != 0)&&(!autoRef[t])) sortedExpected[t] = false;}
    }
    // unlink k and relink it at list position pos (reference for every positional operation)
@@ -252,7 +262,11 @@ template<class TableT, class K, int KIND> struct WorldT : public IWorld
    virtual std::string step(const std::vector<std::string> & a)
    {
       opCount++;
+      const bool quiet = zeroCap(0)||zeroCap(1);
+      int saved = -1;
+      if (quiet) {fflush(stdout); saved = dup(1); const int dn = open("/dev/null", O_WRONLY); if (dn >= 0) {dup2(dn, 1); close(dn);}}
       const std::string r = step2(a);
+      if (saved >= 0) {fflush(stdout); dup2(saved, 1); close(saved);}
       checkTable(0, false); checkTable(1, false);
       return r;
    }
@@ -265,6 +279,32 @@ template<class TableT, class K, int KIND> struct WorldT : public IWorld
 
    void expect(bool cond, const std::string & what) {if (!cond) oracleFail(what);}
 
+   // a put-family call must succeed on an ideal map; returns true if it did
+   bool putOK(int t, bool ok, const char * what)
+   {
+      if (ok) return true;
+      if (tab[t]->GetNumAllocatedItemSlots() == 0) oracleFail(std::string(what) + " failed (out of memory) on table " + u64s(t) + " which has no slots allocated (GetNumAllocatedItemSlots()==0: moved-from, swapped with a moved-from table, or PreallocatedItemSlotsCount(0)); an ideal map accepts the pair");
+                                              else oracleFail(std::string(what) + " failed on table " + u64s(t));
+      return false;
+   }
+   bool isSortedNow(int t)
+   {
+      bool first = true; Pair prev;
+      for (HashtableIterator<K,int,typename KT::HF> i(*tab[t], HTIT_FLAG_NOREGISTER); i.HasData(); i++)
+      {
+         const Pair cur(i.GetKey(), i.GetValue());
+         if ((!first)&&(ltEntry(cur, prev))) return false;
+         prev = cur; first = false;
+      }
+      return true;
+   }
+   // R3: with auto-sort disabled a Put() on an existing key must leave the pair where it is
+   int32 idxIfUnsortedUpdate(int t, const K & k, bool had) {return ((KIND != 0)&&(!autoRef[t])&&(had)) ? tab[t]->IndexOfKey(k) : -2;}
+   void checkNotMoved(int t, const K & k, int32 before, const char * what)
+   {
+      if ((before >= 0)&&(tab[t]->IndexOfKey(k) != before)) oracleFail(std::string(what) + " moved the existing key " + KT::render(k) + " from position " + u64s((uint32_t)before) + " to " + u64s((uint32_t)tab[t]->IndexOfKey(k)) + " although auto-sort is disabled (SetAutoSortEnabled(false)) on table " + u64s(t));
+   }
+
    std::string step2(const std::vector<std::string> & a)
    {
       if (a.empty()) return "bad-op";
@@ -276,22 +316,26 @@ template<class TableT, class K, int KIND> struct WorldT : public IWorld
          NEED(4); TAB(1); KEY(2, pk); VAL(3, pv); NOREF;
          const K k = *pk; const int v = *pv;   // by-value copies for the reference model only
          const bool had = rhas(t, k);
-         if (op == "put")  {const status_t s = T.Put(*pk, *pv); rput(t, k, v); return okErr(s);}
+         const int32 ib = idxIfUnsortedUpdate(t, k, had);
+         if (op == "put")  {const status_t s = T.Put(*pk, *pv); if (!putOK(t, s.IsOK(), "Put()")) return "err"; checkNotMoved(t, k, ib, "Put()"); rput(t, k, v); return okErr(s);}
          if (op == "putp")
          {
             int old = -1; bool replaced = false;
             const int refOld = had ? rfind(t, k)->second : -1;
             const status_t s = T.Put(*pk, *pv, old, &replaced);
+            if (!putOK(t, s.IsOK(), "Put()")) return std::string("err") + (replaced ? " old" : " new");
+            checkNotMoved(t, k, ib, "Put()");
             rput(t, k, v);
             expect(replaced == had, "Put(): replaced flag is wrong");
             if (replaced) expect(old == refOld, "Put(): previous value is wrong");
             return std::string(okErr(s)) + (replaced ? (" old=" + u64s((uint32_t)old)) : std::string(" new"));
          }
-         if (op == "pag")  {const int * p = T.PutAndGet(*pk, *pv); rput(t, k, v); return p ? ("ok " + u64s((uint32_t)*p)) : std::string("err");}
+         if (op == "pag")  {const int * p = T.PutAndGet(*pk, *pv); if (!putOK(t, p != NULL, "PutAndGet()")) return "err"; checkNotMoved(t, k, ib, "PutAndGet()"); rput(t, k, v); return "ok " + u64s((uint32_t)*p);}
          if (op == "gop")
          {
             const int refOld = had ? rfind(t, k)->second : v;
             const int * p = T.GetOrPut(*pk, *pv);
+            if (!putOK(t, p != NULL, "GetOrPut()")) return "err";
             if (!had) rput(t, k, v);
             if (p) expect(*p == refOld, "GetOrPut(): wrong value");
             return p ? ("ok " + u64s((uint32_t)*p)) : std::string("err");
@@ -299,6 +343,7 @@ template<class TableT, class K, int KIND> struct WorldT : public IWorld
          if (op == "pinp")
          {
             const int * p = T.PutIfNotAlreadyPresent(*pk, *pv);
+            if ((!had)&&(!putOK(t, p != NULL, "PutIfNotAlreadyPresent()"))) return "null";
             if (!had) rput(t, k, v);
             expect((p == NULL) == had, "PutIfNotAlreadyPresent(): result disagrees with the ideal map");
             return p ? ("ok " + u64s((uint32_t)*p)) : std::string("null");
@@ -306,17 +351,20 @@ template<class TableT, class K, int KIND> struct WorldT : public IWorld
          if (op == "por")
          {
             const status_t s = T.PutOrRemove(*pk, *pv);
+            if (!putOK(t, s.IsOK(), "PutOrRemove()")) return "err";
+            if (v != 0) checkNotMoved(t, k, ib, "PutOrRemove()");
             if (v == 0) rremove(t, k); else rput(t, k, v);
             return okErr(s);
          }
-         if (op == "pfront") {const status_t s = T.PutAtFront(*pk, *pv); rput(t, k, v); if ((had)||(KIND != 0)) rmoveTo(t, k, 0); else {rremove2(t, k); rinsert(t, ref[t].begin(), Pair(k, v));} return okErr(s);}
-         /* pback */         {const status_t s = T.PutAtBack(*pk, *pv);  rput(t, k, v); if ((had)||(KIND != 0)) rmoveTo(t, k, ref[t].size()); return okErr(s);}
+         if (op == "pfront") {const status_t s = T.PutAtFront(*pk, *pv); if (!putOK(t, s.IsOK(), "PutAtFront()")) return "err"; rput(t, k, v); if ((had)||(KIND != 0)) rmoveTo(t, k, 0); else {rremove2(t, k); rinsert(t, ref[t].begin(), Pair(k, v));} return okErr(s);}
+         /* pback */         {const status_t s = T.PutAtBack(*pk, *pv);  if (!putOK(t, s.IsOK(), "PutAtBack()")) return "err"; rput(t, k, v); if ((had)||(KIND != 0)) rmoveTo(t, k, ref[t].size()); return okErr(s);}
       }
       if (op == "putd")
       {
          NEED(3); TAB(1); KEY(2, pk); NOREF;
          const K k = *pk;
-         const status_t s = T.PutWithDefault(*pk); rput(t, k, 0); return okErr(s);
+         const int32 ib = idxIfUnsortedUpdate(t, k, rhas(t, k));
+         const status_t s = T.PutWithDefault(*pk); if (!putOK(t, s.IsOK(), "PutWithDefault()")) return "err"; checkNotMoved(t, k, ib, "PutWithDefault()"); rput(t, k, 0); return okErr(s);
       }
       if ((op == "pbefore")||(op == "pbehind"))
       {
@@ -324,6 +372,7 @@ template<class TableT, class K, int KIND> struct WorldT : public IWorld
          const K k = *pk; const K k2 = *pk2; const int v = *pv;
          const bool had = rhas(t, k);
          const status_t s = (op == "pbefore") ? T.PutBefore(*pk, *pk2, *pv) : T.PutBehind(*pk, *pk2, *pv);
+         if (!putOK(t, s.IsOK(), "PutBefore()/PutBehind()")) return "err";
          rput(t, k, v);
          if ((rhas(t, k2))&&(!(k == k2)))
          {
@@ -342,6 +391,7 @@ template<class TableT, class K, int KIND> struct WorldT : public IWorld
          const K k = *pk; const int v = *pv;
          const bool had = rhas(t, k);
          const status_t s = T.PutAtPosition(*pk, pos, *pv);
+         if (!putOK(t, s.IsOK(), "PutAtPosition()")) return "err";
          rput(t, k, v);
          {
             typename Ref::iterator i = rfind(t, k); const Pair p = *i; rerase(t, i);
@@ -531,6 +581,77 @@ template<class TableT, class K, int KIND> struct WorldT : public IWorld
          else           expect(copy.IsEqualTo(T, false), "a copy-constructed table differs from its source");
          return dump(copy);
       }
+      if (op == "massign")
+      {
+         NEED(2); TAB(1);
+         T = std::move(*tab[1-t]);    // documented as a swap of the contents (and iterators)
+         ref[0].swap(ref[1]); rmap[0].swap(rmap[1]); std::swap(sortedExpected[0], sortedExpected[1]);
+         for (int i=0; i<4; i++) if (book[i].owner >= 0) book[i].owner = 1-book[i].owner;
+         return "ok";
+      }
+      if (op == "movector")
+      {
+         NEED(2); TAB(1);
+         TableT * fresh = new TableT(std::move(T));   // T is left as the source of a move: empty, no slots
+         delete tab[1-t]; rclear(1-t);
+         tab[1-t] = fresh; autoRef[1-t] = true;
+         ref[1-t].swap(ref[t]); rmap[1-t].swap(rmap[t]); sortedExpected[1-t] = sortedExpected[t]; sortedExpected[t] = true;
+         for (int i=0; i<4; i++) if (book[i].owner == t) book[i].owner = 1-t;
+         expect(T.IsEmpty(), "a moved-from table is not empty");
+         return "ok";
+      }
+      if (op == "mkpre")
+      {
+         NEED(3); TAB(1); uint32 n; if ((!natArg(a[2], n))||(n > 1000000)) return "bad-op";
+         delete tab[t]; tab[t] = new TableT(PreallocatedItemSlotsCount(n)); rclear(t); autoRef[t] = true;
+         return "ok";
+      }
+      if (op == "ecp")
+      {
+         NEED(3); TAB(1); uint32 n; if (!natArg(a[2], n)) return "bad-op";
+         if ((n > 1000000)&&(n != MUSCLE_NO_LIMIT)) return "bad-op";
+         return okErr(T.EnsureCanPut(n));
+      }
+      if (op == "setv")
+      {
+         NEED(4); TAB(1); KEY(2, pk); VAL(3, pv); NOREF;
+         const int v = *pv;
+         int * p = T.Get(*pk);
+         typename Ref::iterator ri = rfind(t, *pk);
+         expect((p != NULL) == (ri != ref[t].end()), "Get(): presence disagrees with the ideal map");
+         if (p == NULL) return "none";
+         *p = v; if (ri != ref[t].end()) ri->second = v;
+         if (KIND == 2) sortedExpected[t] = false;
+         return "ok";
+      }
+      if (op == "swt")
+      {
+         NEED(3); TAB(1); KEY(2, pk); NOREF;
+         const K k = *pk;
+         typename Ref::iterator ra = rfind(t, k), rb = rfind(1-t, k);
+         const bool ha = (ra != ref[t].end()), hb = (rb != ref[1-t].end());
+         const int va = ha ? ra->second : 0, vb = hb ? rb->second : 0;
+         const bool wasSorted[2] = {sortedExpected[0]&&autoRef[0], sortedExpected[1]&&autoRef[1]};
+         const status_t s = T.SwapWithTable(*pk, *tab[1-t]);
+         if ((!ha)&&(!hb)) {expect(s.IsError(), "SwapWithTable(): status for a key in neither table"); return okErr(s);}
+         if ((ha)&&(hb))
+         {
+            expect(s.IsOK(), "SwapWithTable(): status");
+            ra->second = vb; rb->second = va;
+            if (KIND != 0) {noteReorder(0); noteReorder(1);}
+            if (KIND == 2) for (int x=0; x<2; x++) if (!autoRef[x]) sortedExpected[x] = false;   // auto-sort off: the pair stays where it is
+            if (KIND == 2) for (int x=0; x<2; x++) if ((wasSorted[x])&&(!isSortedNow(x)))
+            {
+               oracleFail("SwapWithTable(): auto-sorting table " + u64s(x) + " was sorted before the call and is out of order after it (the values were swapped in place, the entries not re-positioned)");
+               sortedExpected[x] = false;
+            }
+            return okErr(s);
+         }
+         const int dst = ha ? (1-t) : t, src = ha ? t : (1-t);
+         if (!putOK(dst, s.IsOK(), "SwapWithTable()")) return "err";
+         rput(dst, k, ha ? va : vb); rremove(src, k);
+         return okErr(s);
+      }
       if (op == "swap")
       {
          NEED(1);
@@ -555,6 +676,7 @@ template<class TableT, class K, int KIND> struct WorldT : public IWorld
          NEED(3); TAB(1); KEY(2, pk); NOREF;
          const K k = *pk; typename Ref::iterator ri = rfind(t, k); const bool had = (ri != ref[t].end()); const int v = had ? ri->second : 0;
          const status_t s = (op == "mtt") ? T.MoveToTable(*pk, *tab[1-t]) : T.CopyToTable(*pk, *tab[1-t]);
+         if ((had)&&(!putOK(1-t, s.IsOK(), "MoveToTable()/CopyToTable()"))) return "err";
          expect(s.IsOK() == had, "MoveToTable()/CopyToTable(): status");
          if (had) {rput(1-t, k, v); if (op == "mtt") rremove(t, k);}
          return okErr(s);
@@ -634,10 +756,11 @@ struct HtEngine : public Engine
 
    virtual std::string step(const std::vector<std::string> & a)
    {
-      if ((a.size() == 4)&&(a[0] == "init"))
+      if (((a.size() == 4)||(a.size() == 5))&&(a[0] == "init"))
       {
-         uint64_t hm;
+         uint64_t hm, q = 0;
          if ((!toU64(a[3], hm))||(hm > 0xFFFFFFFFULL)) return "bad-op";
+         if ((a.size() == 5)&&((!toU64(a[4], q))||(q >= 8))) return "bad-op";   // the model's behaviour switches; the real code has its own
          const std::string & k = a[1]; const std::string & kt = a[2];
          if (((k != "h")&&(k != "k")&&(k != "v"))||((kt != "u")&&(kt != "s"))) return "bad-op";
          delete w; w = NULL;
@@ -666,9 +789,51 @@ struct HtEngine : public Engine
    FILE * out;
    bool strKeys;
    uint32_t keyRange, keyBase;
+   uint32_t quirks;     // which of the findings R1..R3 the code under test shows (probed once; goes onto every init line)
+   char kindChar;
    static FILE * devnull() {static FILE * f = fopen("/dev/null", "w"); return f;}
+
+   // bit0 (R1): a put into a table without slots fails for ever;  bit1 (R2): SwapWithTable() does not re-position;
+   // bit2 (R3): Put() on an existing key re-positions although auto-sort is disabled
+   static uint32_t probeQuirks()
+   {
+      fflush(stdout); const int saved = dup(1); {const int dn = open("/dev/null", O_WRONLY); if (dn >= 0) {dup2(dn, 1); close(dn);}}
+      uint32_t q = 0;
+      {Hashtable<int,int> z((PreallocatedItemSlotsCount(0))); if (z.Put(1,1).IsError()) q |= 1;}
+      {OrderedValuesHashtable<int,int> x, y; (void) x.Put(1,10); (void) x.Put(2,20); (void) y.Put(1,90); (void) x.SwapWithTable(1, y); const int * f = x.GetFirstKey(); if ((f)&&(*f == 1)) q |= 2;}
+      {OrderedValuesHashtable<int,int> x; x.SetAutoSortEnabled(false); (void) x.Put(1,50); (void) x.Put(2,60); (void) x.Put(1,99); const int * f = x.GetFirstKey(); if ((f)&&(*f != 1)) q |= 4;}
+      fflush(stdout); dup2(saved, 1); close(saved);
+      return q;
+   }
+
+   // While a finding is open its trigger inputs stay out of the random stream (they would hide other failures behind
+   // a known one); they live in corpus/C09/*-known-*.ops.  As soon as the probe sees the repaired behaviour they are generated.
+   bool isOpenTrigger(const std::vector<std::string> & a) const
+   {
+      if ((w == NULL)||(a.size() < 2)||(quirks == 0)) return false;
+      const std::string & op = a[0];
+      const int t = (a[1] == "1") ? 1 : 0;
+      const bool putFam = (op == "put")||(op == "putp")||(op == "putd")||(op == "pag")||(op == "gop")||(op == "pinp")||(op == "por")||(op == "pfront")||(op == "pback")||(op == "pbefore")||(op == "pbehind")||(op == "ppos");
+      if (quirks & 1)
+      {
+         if ((putFam)&&(w->zeroCap(t))) return true;
+         if (((op == "mtt")||(op == "ctt"))&&(w->zeroCap(1-t))) return true;
+         if ((op == "swt")&&((w->zeroCap(0))||(w->zeroCap(1)))) return true;
+      }
+      if ((quirks & 2)&&(op == "swt")&&(kindChar == 'v')&&(a.size() >= 3))
+      {
+         if (a[2][0] == '@') return true;
+         if ((w->hasKeyTok(0, a[2]))&&(w->hasKeyTok(1, a[2]))) return true;
+      }
+      if ((quirks & 4)&&(kindChar != 'h')&&(!w->autoSortOn(t))&&((op == "put")||(op == "putp")||(op == "putd")||(op == "pag")||(op == "por"))&&(a.size() >= 3))
+      {
+         if ((a[2][0] == '@')||(w->hasKeyTok(t, a[2]))) return true;
+      }
+      return false;
+   }
    void emit(const std::string & line)
    {
+      if (isOpenTrigger(split(line))) return;
       fputs(line.c_str(), out); fputc('\n', out);
       fflush(out);                                    // the op line must be on disk before the real code runs it (it may crash or hang)
       FILE * keep = g_oracle; g_oracle = devnull();   // the generator's own executions are not oracle runs
@@ -818,7 +983,21 @@ struct HtEngine : public Engine
       if (c < 75)  {emit("swap"); return;}
       if (c < 76)  {emit("eq " + u64s(r.below(2))); return;}
       if (c < 78)  {emit((r.chance(1,2) ? "mtt " : "ctt ") + T + " " + genKeyArg(r, t, al)); return;}
-      if (c < 79)  {if (r.chance(1,3)) emit("destroy " + T); else emit("has " + T + " " + genKey(r, t)); return;}
+      if (c < 79)
+      {
+         switch(r.below(12))
+         {
+            case 0: case 1: emit("destroy " + T); break;
+            case 2: case 3: case 4: emit("swt " + T + " " + genKeyArg(r, t, al)); break;
+            case 5: emit("movector " + T); break;
+            case 6: emit("massign " + T); break;
+            case 7: emit("mkpre " + T + " " + u64s(r.chance(1,2) ? 0 : r.below(9))); break;
+            case 8: emit("ecp " + T + " " + u64s(r.chance(1,8) ? 4294967295u : r.below(4))); break;
+            case 9: case 10: emit("setv " + T + " " + genKeyArg(r, t, al) + " " + genVal(r, t, al)); break;
+            default: emit("has " + T + " " + genKey(r, t)); break;
+         }
+         return;
+      }
       // iterators (c in 79..99)
       const int i = (int)r.below(4);
       const std::string I = u64s((uint32_t)i);
@@ -869,6 +1048,7 @@ struct HtEngine : public Engine
    virtual void gen(Rng & r, const Tier & tier, FILE * o)
    {
       out = o;
+      quirks = probeQuirks();
       const uint32_t ncases = tier.thorough ? 1500 : 180;
       static const char * kinds[] = {"h", "h", "h", "k", "v", "v"};
       for (uint32_t c=0; c<ncases; c++)
@@ -880,14 +1060,18 @@ struct HtEngine : public Engine
          strKeys = r.chance(1,3);
          static const uint32_t mods[] = {0, 1, 3, 3, 0, 16};
          uint32_t hm = strKeys ? 0 : mods[r.below(6)];
-         uint32_t scenario = r.below(10);
+         uint32_t scenario = r.below(15);
          // the 65535/65536 boundary: thorough only, one big case on every fourth shard
          const bool big = (tier.thorough)&&(c == 0)&&((tier.shard % 4) == 0);
          if (big) {scenario = 100; strKeys = false; hm = 0; kind = ((tier.shard % 8) == 0) ? "h" : "k";}
+         if (scenario == 10) {strKeys = false; hm = 0;}                                   // exact capacities: identity hash, so that key % capacity picks the slot
+         if ((scenario == 12)||(scenario == 14)) kind = r.chance(3,4) ? "v" : "k";         // re-positioning / auto-sort toggling need an ordered kind
+         const bool ordered2 = (kind[0] != 'h');
          keyBase = r.chance(1,4) ? 0 : r.below(1000);
          static const uint32_t ranges[] = {6, 12, 12, 20, 40, 40, 90};
          keyRange = ranges[r.below(7)];
-         emit(std::string("init ") + kind + " " + (strKeys ? "s" : "u") + " " + u64s(hm));
+         kindChar = kind[0];
+         emit(std::string("init ") + kind + " " + (strKeys ? "s" : "u") + " " + u64s(hm) + " " + u64s(quirks));
          if (scenario <= 4)
          {
             // general mix over a small key universe, iterators opened along the way
@@ -951,13 +1135,182 @@ struct HtEngine : public Engine
                else randomOp(r, (int)r.below(3), ordered);
             }
          }
+         else if (scenario == 10)
+         {
+            // (a) a table of EXACTLY 256 (or, sparsely populated, 65536) slots: its last slot index is the all-ones value of the
+            // next narrower index type.  Capacity reached by EnsureSize, by the preallocating constructor, or by ShrinkToFit at
+            // exactly that many items; keys whose hash % capacity is capacity-1; the capacity-th insert; copies of such a table.
+            const uint32_t cap = r.chance(2,3) ? 256 : 65536;
+            const bool dense = (cap == 256)&&(r.chance(2,3));
+            keyBase = 0; keyRange = 3*cap;
+            const uint32_t how = r.below(3);
+            if (how == 0) emit("ensure 0 " + u64s(cap) + " 0");
+            else if (how == 1) emit("mkpre 0 " + u64s(cap));
+            else if (cap == 256) {for (uint32_t i=0; i<cap; i++) emit("put 0 " + u64s(i*(r.chance(1,2)?1:1)) + " " + u64s(i%10)); emit("shrink 0 0");}
+            else emit("ensure 0 " + u64s(cap) + " 1");
+            emit("put 0 " + u64s(cap-1) + " 1"); emit("put 0 " + u64s(2*cap-1) + " 2"); emit("put 0 " + u64s(3*cap-1) + " 3"); emit("put 0 " + u64s(cap-2) + " 4");
+            emit("itat 0 0 " + u64s(cap-1) + " 0"); emit("itat 1 0 " + u64s(2*cap-1) + " 1"); emit("itnew 2 0 0"); emit("itnew 3 0 1");
+            if (dense) {uint32_t k = 0; uint32_t guard = 4*cap; while((w->size(0) < cap)&&(guard-- > 0)) {emit("put 0 " + u64s(k) + " " + u64s(k%7)); k++;}}   // up to the capacity-th insert
+            emit("n 0"); emit("first 0"); emit("last 0"); emit("get 0 " + u64s(cap-1)); emit("idx 0 " + u64s(2*cap-1)); emit("kafter 0 " + u64s(cap-1)); emit("kbefore 0 " + u64s(cap-1));
+            for (int i=0; i<4; i++) {emit("itnext " + u64s((uint32_t)i)); emit("itpeek " + u64s((uint32_t)i));}
+            emit("cctor 0");                                    // the copy constructor takes over the capacity and re-inserts every pair by hash % capacity
+            emit("ensure 1 " + u64s(cap) + " 0"); emit("copy 1"); emit("eq 1");
+            emit("rem 0 " + u64s(cap-1)); emit("put 0 " + u64s(cap-1) + " 9"); emit("mfront 0 " + u64s(cap-1)); emit("rem 0 " + u64s(3*cap-1)); emit("put 0 " + u64s(4*cap-1) + " 5");
+            if (w->size(0) <= 600) emit("dump 0");
+            if (dense) {emit("put 0 " + u64s(5*cap+1) + " 1"); emit("put 0 " + u64s(5*cap+2) + " 1");}   // one past the capacity: growth to the wider index type
+            emit("shrink 0 0"); emit("massign 0"); emit("n 0"); emit("n 1");
+            const uint32_t nops = r.range(10, 40);
+            for (uint32_t i=0; i<nops; i++) {if (w->size(0) > 600) emit("reml 0"); else randomOp(r, (int)r.below(3), ordered);}
+            if (w->size(0) > 600) {emit("n 0"); emit("clear 0 1");}
+            if (w->size(1) > 600) {emit("n 1"); emit("clear 1 1");}
+         }
+         else if (scenario == 11)
+         {
+            // (b) several registered iterators parked on the SAME entry while the array is reallocated (growth at a full table,
+            // EnsureSize, ShrinkToFit, EnsureCanPut); every one of them must be re-pointed at the clone of its entry
+            static const uint32_t fulls[] = {7, 14, 28, 5, 56, 224, 255, 256, 20};
+            const uint32_t n0 = fulls[r.below(9)];
+            keyRange = 4*n0 + 50;
+            fillTo(r, 0, n0, true);
+            const uint32_t rounds = r.range(2, 5);
+            for (uint32_t round=0; round<rounds; round++)
+            {
+               const uint32_t n = w->size(0); if (n == 0) break;
+               const std::string at = "@a" + u64s((r.chance(1,4)) ? ((r.chance(1,2)) ? 0 : n-1) : r.below(n));
+               emit("itat 0 0 " + at + " 0"); emit("itat 1 0 @i0 1"); emit("itcopy 0 2"); emit("itat 3 0 @i0 " + u64s(r.below(2)));
+               if (r.chance(1,3)) emit("rem 0 @i0");    // ... or all four hold a scratch copy and stand on the same neighbour
+               switch(r.below(6))
+               {
+                  case 0: case 1: emit("put 0 " + keyTok(keyBase + 10000 + round) + " " + u64s(r.below(10))); break;
+                  case 2: emit("ensure 0 " + u64s(n*2 + r.below(3)) + " 0"); break;
+                  case 3: emit("shrink 0 " + u64s(r.below(2))); break;
+                  case 4: emit("ensure 0 " + u64s(n + r.below(3)) + " 1"); break;
+                  default: emit("ecp 0 " + u64s(1 + r.below(300))); break;
+               }
+               for (int i=0; i<4; i++) emit("itpeek " + u64s((uint32_t)i));
+               emit("itnext 0"); emit("itprev 1"); emit("itnext 2"); emit("itnext 3");
+               if (r.chance(1,2)) emit("rem 0 @i2");
+               for (int i=0; i<4; i++) emit("itpeek " + u64s((uint32_t)i));
+               const uint32_t nops = r.below(12);
+               for (uint32_t i=0; i<nops; i++) randomOp(r, 2, ordered2);
+            }
+         }
+         else if (scenario == 12)
+         {
+            // (c) Put(existingKey, newValue) / in-place update + Reposition(key) on a sorted table: the pair has to travel towards
+            // the back (or the front) and stop in the middle, next to equal values, at the ends
+            const uint32_t n0 = r.range(4, 14);
+            keyRange = 40;
+            for (uint32_t i=0; i<n0; i++) emit("put 0 " + keyTok(keyBase + i*3 + r.below(3)) + " " + u64s(10*(1 + r.below(n0))));
+            openIterators(r, 0);
+            const uint32_t nops = r.range(30, 90);
+            for (uint32_t i=0; i<nops; i++)
+            {
+               const uint32_t n = w->size(0);
+               if ((n < 3)||(r.chance(1,6))) {randomOp(r, 0, true); continue;}
+               const std::string who = w->keyTokAt(0, r.below(n));
+               const uint32_t j = r.below(n);
+               const int vj = w->valueOfKeyTok(0, w->keyTokAt(0, j));
+               long long nvl = (long long)vj + ((long long)r.below(3)-1)*(long long)(1+r.below(6)); if (nvl < 0) nvl = 0; if (nvl > 0x7FFFFFFFLL) nvl = 0x7FFFFFFFLL;
+               const int nv = (int)nvl;
+               switch(r.below(8))
+               {
+                  case 0: case 1: case 2: emit("put 0 " + who + " " + u64s((uint32_t)nv)); break;
+                  case 3: emit("putp 0 " + who + " " + u64s((uint32_t)nv)); break;
+                  case 4: emit("pag 0 " + who + " " + u64s((uint32_t)nv)); break;
+                  case 5: emit("setv 0 " + who + " " + u64s((uint32_t)nv)); emit("repos 0 " + who); break;
+                  case 6: emit("setv 0 " + who + " " + u64s((uint32_t)nv)); if (r.chance(1,2)) emit("itnext " + u64s(r.below(4))); emit("repos 0 " + who); break;
+                  default: emit("ctt 1 " + who); emit("setv 1 " + who + " " + u64s((uint32_t)nv)); emit("swt 0 " + who); break;
+               }
+               if (r.chance(1,4)) emit("dump 0");
+               if (r.chance(1,3)) emit("itnext " + u64s(r.below(4)));
+            }
+         }
+         else if (scenario == 13)
+         {
+            // moved-from tables being used again (move constructor, move assignment, SwapContents with a table that has no slots,
+            // PreallocatedItemSlotsCount(0)) and the whole cross-table family, iterators alive
+            keyRange = 14;
+            const uint32_t n0 = r.range(0, 9), n1 = r.range(0, 9);
+            for (uint32_t i=0; i<n0; i++) emit("put 0 " + keyTok(keyBase + r.below(10)) + " " + u64s(r.below(10)));
+            for (uint32_t i=0; i<n1; i++) emit("put 1 " + keyTok(keyBase + 4 + r.below(10)) + " " + u64s(r.below(10)));
+            emit("itnew 0 0 0"); emit("itnew 1 1 1"); emit("itat 2 0 @l 1"); emit("itat 3 1 @f 0");
+            const uint32_t nops = r.range(30, 100);
+            for (uint32_t i=0; i<nops; i++)
+            {
+               const std::string T = u64s(r.below(2));
+               const int t = (T == "1") ? 1 : 0;
+               const std::string key = keyTok(keyBase + r.below(keyRange));
+               switch(r.below(30))
+               {
+                  case 0: case 1: emit("movector " + T); break;
+                  case 2: emit("massign " + T); break;
+                  case 3: emit("swap"); break;
+                  case 4: emit("mkpre " + T + " 0"); break;
+                  case 5: emit("mkpre " + T + " " + u64s(r.below(5))); break;
+                  case 6: case 7: case 8: emit("put " + T + " " + key + " " + u64s(r.below(10))); break;
+                  case 9: emit("pfront " + T + " " + key + " " + u64s(r.below(10))); break;
+                  case 10: emit("gop " + T + " " + key + " " + u64s(r.below(10))); break;
+                  case 11: emit("ensure " + T + " " + u64s(r.below(3)*r.below(6)) + " " + u64s(r.below(2))); break;
+                  case 12: emit("shrink " + T + " " + u64s(r.below(2))); break;
+                  case 13: emit("clear " + T + " " + u64s(r.below(2))); break;
+                  case 14: emit("copy " + T); break;
+                  case 15: emit("putall " + T); break;
+                  case 16: case 17: case 18: emit("swt " + T + " " + key); break;
+                  case 19: case 20: emit("mtt " + T + " " + key); break;
+                  case 21: emit("ctt " + T + " " + key); break;
+                  case 22: emit(r.chance(1,2) ? ("remt " + T) : ("isect " + T)); break;
+                  case 23: emit("eq " + u64s(r.below(2))); break;
+                  case 24: emit("cctor " + T); break;
+                  case 25: emit("itnew " + u64s(r.below(4)) + " " + T + " " + u64s(r.below(2))); break;
+                  case 26: emit("itnext " + u64s(r.below(4))); break;
+                  case 27: emit("ecp " + T + " " + u64s(r.below(3))); break;
+                  case 28: emit("dump " + T); break;
+                  default: randomOp(r, 0, ordered2); break;
+               }
+               (void) t;
+            }
+         }
+         else if (scenario == 14)
+         {
+            // SetAutoSortEnabled() toggling followed by Put / Reposition / Sort, iterators alive
+            keyRange = 20;
+            fillTo(r, 0, r.range(3, 10), false);
+            openIterators(r, 0);
+            const uint32_t nops = r.range(40, 120);
+            for (uint32_t i=0; i<nops; i++)
+            {
+               const std::string key = r.chance(1,2) ? keyTok(keyBase + r.below(keyRange)) : (w->size(0) ? w->keyTokAt(0, r.below(w->size(0))) : keyTok(keyBase));
+               switch(r.below(14))
+               {
+                  case 0: emit("autosort 0 0 " + u64s(r.below(2))); break;
+                  case 1: emit("autosort 0 1 " + u64s(r.below(2))); break;
+                  case 2: case 3: case 4: emit("put 0 " + key + " " + u64s(r.below(12))); break;
+                  case 5: emit("repos 0 " + key); break;
+                  case 6: emit("sort 0"); break;
+                  case 7: emit("setv 0 " + key + " " + u64s(r.below(12))); break;
+                  case 8: emit("itnext " + u64s(r.below(4))); break;
+                  case 9: emit("dump 0"); break;
+                  case 10: emit("putall 0"); break;
+                  case 11: emit("swt 0 " + key); break;
+                  default: randomOp(r, 0, true); break;
+               }
+            }
+         }
          else
          {
             // 65534/65535/65536/65537
             keyRange = 70000; keyBase = 0;
-            emit("ensure 0 " + u64s(65534 + r.below(3)) + " 0");
-            fillTo(r, 0, 65530, true);
+            const uint32_t variant = (tier.shard/4) % 4;    // 0: EnsureSize(65536), 1: ShrinkToFit at exactly 65536 items, 2: 65535, 3: preallocated 65536 + copies
+            if (variant == 0) emit("ensure 0 65536 0");
+            if (variant == 2) emit("ensure 0 65535 0");
+            if (variant == 3) emit("mkpre 0 65536");
+            fillTo(r, 0, (variant == 2) ? 65535 : 65536, true);   // sequential keys under the identity hash: key 65535 takes slot 65535 at the capacity-th insert
+            if (variant == 1) emit("shrink 0 0");
+            emit("n 0"); emit("get 0 65535"); emit("kbefore 0 65535"); emit("idx 0 65534");
+            if (variant == 3) {emit("ensure 1 65536 0"); emit("copy 1"); emit("eq 1"); emit("n 1"); emit("last 1"); emit("clear 1 1");}
             openIterators(r, 0);
+            emit("itat 0 0 65535 1"); emit("itnext 0"); emit("itpeek 0");
             for (uint32_t i=0; i<10; i++) emit("put 0 " + keyTok(100000 + i) + " " + u64s(r.below(10)));   // crosses the pinned capacity: reallocation to 16 -> 32 bit indices
             for (uint32_t i=0; i<120; i++)
             {
